@@ -49,6 +49,9 @@ package saml
 //@ contract (*ServiceProvider).validateAudienceRestriction
 //@ requires[cfg] a: assertion != nil && assertion.Conditions != nil
 //@ ensures[C03] default: sp.ValidateAudienceRestriction == nil ==> (err == nil) == audienceOK(sp, assertion)
+//@ ghost func CustomAudienceOK(fn func(*Assertion) error, a *Assertion) bool
+//@ -- a configured application validator decides alone: its rejection is final, the built-in rule is not a fallback
+//@ ensures[C03] custom: sp.ValidateAudienceRestriction != nil ==> (err == nil) == CustomAudienceOK(sp.ValidateAudienceRestriction, assertion)
 //@ loop 1 vars audienceRestrictionsValid bool
 //@ invariant[C03] acc: audienceRestrictionsValid == (len(assertion.Conditions.AudienceRestrictions) == 0 ||
 //@    exists(0, iter, func(k int) bool { return assertion.Conditions.AudienceRestrictions[k].Audience.Value == spAudience(sp) }))
